@@ -26,7 +26,7 @@ theorem cellOf_eq_some {oe : Option Entry} {c : Cell} :
     | false =>
       simp only [cellOf, hs, Bool.false_eq_true, if_false, Option.some.injEq]
       constructor
-      · intro h; exact ⟨e, rfl, rfl, h.symm⟩
+      · intro h; exact ⟨e, rfl, hs, h.symm⟩
       · rintro ⟨e', h1, _, h2⟩; cases h1; exact h2.symm
 
 theorem cellOf_eq_none {oe : Option Entry} : cellOf oe = none ↔ oe = none ∨ ∃ e, oe = some e ∧ e.soft = true := by
@@ -49,6 +49,12 @@ theorem read_abs (s : State) (k : Nat) : (abs s).read k = if s.shutting then non
     | none => rfl
     | some e =>
       cases hs : e.soft <;> cases hx : e.expiry <;> simp [cellOf, Entry.alive, Cell.expired, hs, hx]
+      rename_i x
+      by_cases h : x < s.now
+      · have : ¬ s.now ≤ x := by omega
+        simp [h, this]
+      · have : s.now ≤ x := by omega
+        simp [h, this]
 
 /-! ### 2. which event justifies which cause -/
 
@@ -62,7 +68,7 @@ def HeadPut (s : State) (k v : Nat) (ttl : Option Nat) (w : Int) : Prop :=
 
 /-- **The event (and for the worker: the head command) that justifies a cause for key `k`.** -/
 def Justified (s : State) (ev : Ev) (k : Nat) : Why → Prop
-  | .unchanged => True
+  | .unchanged => ∀ c, ev = .delete c k → s.shutting = true ∨ cellOf (s.store.get? k) = none
   | .installed v ttl => ev = .worker ∧ ∃ w, HeadPut s k v ttl w
   | .rewritten v ttl rm => ∃ c w, ev = .upsert c k v w ttl rm
   | .hidden => ∃ c, ev = .delete c k
@@ -114,5 +120,265 @@ theorem workerPut_entry {s : State} {id hash : Nat} {w : Int} {k v : Nat} {ttl :
         obtain ⟨rfl, _⟩ := h
         simp only [Exec.kill, f1] at he
         rw [habs] at he; cases he
+
+/-- `put_or_update` of a physically present key: nothing happens (shutting down, or `now + ttl` is not
+    representable), or the entry is rewritten as requested — the given value or the old one, the requested deadline -/
+theorem clientUpsert_entry (s : State) (c k : Nat) (v : Option Nat) (w : Option Int) (ttl : Option Nat) (rm : Bool)
+    (e : Entry) (hk : s.store.get? k = some e) :
+    (clientUpsert s c k v w ttl rm).1.store.get? k = some e ∨
+    (clientUpsert s c k v w ttl rm).1.store.get? k =
+      some { e with expiry := newDeadline s.now e.expiry ttl rm, value := v.getD e.value } := by
+  cases hsh : s.shutting with
+  | true => left; simp [clientUpsert, hsh, hk]
+  | false =>
+    cases hne : upsertNewExpiry? s e ttl rm with
+    | none => left; rw [clientUpsert_present_overflow s c k v w ttl rm e hsh hk hne]; exact hk
+    | some ne =>
+      right
+      rw [clientUpsert_present s c k v w ttl rm e ne hsh hk hne, (upsertFinish_frame _ _ _ _).1,
+        upsertNewExpiry?_some hne]
+      cases rm <;> cases ttl <;> simp [upsertMid, upsertExpiry, newDeadline]
+
+/-- `delete(k)` on a running cache leaves no readable cell of `k` behind (the entry is soft-deleted or absent) -/
+theorem clientDelete_cell (s : State) (c k : Nat) (hsh : s.shutting = false) :
+    cellOf ((clientDelete s c k).1.store.get? k) = none := by
+  unfold clientDelete
+  simp only [hsh, Bool.false_eq_true, if_false]
+  rw [sendCmd_store]
+  dsimp only
+  split
+  · simp [cellOf]
+  · rename_i h; rw [h]; rfl
+
+/-- a key whose cell did not change: `unchanged` is justified (a `delete` call of a readable key on a running cache
+    never leaves the cell as it was) -/
+theorem justified_unchanged {s s' : State} {ev : Ev} {o o' : Oracle} {out : Out}
+    (hs : step s ev o = .ok (s', out, o')) (k : Nat)
+    (h : cellOf (s'.store.get? k) = cellOf (s.store.get? k)) : Justified s ev k .unchanged := by
+  intro c hev
+  subst hev
+  cases hsh : s.shutting with
+  | true => exact Or.inl rfl
+  | false =>
+    right
+    simp only [step, Except.ok.injEq, Prod.mk.injEq] at hs
+    obtain ⟨rfl, _, _⟩ := hs
+    rw [← h]
+    exact clientDelete_cell s c k hsh
+
+theorem step_now_eq {s s' : State} {ev : Ev} {o o' : Oracle} {out : Out} (hs : step s ev o = .ok (s', out, o'))
+    (hev : ∀ d, ev ≠ .advance d) : s'.now = s.now := by
+  rcases (step_frame hs).1 with h | ⟨d, hd, _⟩
+  · exact h
+  · exact absurd hd (hev d)
+
+/-! ### 4. THE refinement theorem -/
+
+/-- **Every step of the model moves every key's cell by one `KeyStep`, for a cause the event justifies.**
+    (`TtlInv s`: the sweeper removes only entries past their CURRENT deadline; `QInv s`: a parked `shutdown()` has
+    set the flag.  Both hold at every reachable state: `refines_reach`.) -/
+theorem refines {s s' : State} {ev : Ev} {o o' : Oracle} {out : Out} (ht : TtlInv s) (hq : QInv s)
+    (hs : step s ev o = .ok (s', out, o')) (k : Nat) :
+    ∃ why, KeyStep (abs s).now (abs s').now why ((abs s).cells k) ((abs s').cells k) ∧ Justified s ev k why := by
+  have hle : s.now ≤ s'.now := step_now_le hs
+  show ∃ why, KeyStep s.now s'.now why (cellOf (s.store.get? k)) (cellOf (s'.store.get? k)) ∧ Justified s ev k why
+  -- a cell that ends as `none`: unchanged if it was `none`, otherwise the given cause
+  have toNone : ∀ (why : Why), s'.store.get? k = none → Justified s ev k why →
+      (∀ c, cellOf (s.store.get? k) = some c → KeyStep s.now s'.now why (some c) none) →
+      ∃ why, KeyStep s.now s'.now why (cellOf (s.store.get? k)) (cellOf (s'.store.get? k)) ∧ Justified s ev k why := by
+    intro why h1 hj hc
+    rw [h1]
+    cases hcell : cellOf (s.store.get? k) with
+    | none => exact ⟨.unchanged, .unchanged _ hle, justified_unchanged hs k (by rw [h1, hcell]; rfl)⟩
+    | some c => exact ⟨why, hc c hcell, hj⟩
+  cases step_key hs k with
+  | same h1 => exact ⟨.unchanged, by rw [h1]; exact .unchanged _ hle, justified_unchanged hs k (by rw [h1])⟩
+  | upsert c v w t rm e e' hev h0 _ _ _ _ =>
+    subst hev
+    have hn : s'.now = s.now := step_now_eq hs (by intro d h; cases h)
+    have hju : Justified s (.upsert c k v w t rm) k .unchanged := fun _ h => by cases h
+    simp only [step, Except.ok.injEq, Prod.mk.injEq] at hs
+    obtain ⟨rfl, _, _⟩ := hs
+    rw [h0]
+    cases hsoft : e.soft with
+    | true =>
+      -- an upsert of a soft-deleted entry: the dead entry is rewritten, readers see nothing
+      refine ⟨.unchanged, ?_, hju⟩
+      rcases clientUpsert_entry s c k v w t rm e h0 with h | h <;> rw [h] <;>
+        simp only [cellOf, hsoft, if_true] <;> exact .unchanged _ hle
+    | false =>
+      rcases clientUpsert_entry s c k v w t rm e h0 with h | h
+      · rw [h]; exact ⟨.unchanged, .unchanged _ hle, hju⟩
+      · rw [h]
+        refine ⟨.rewritten v t rm, ?_, c, w, rfl⟩
+        simp only [cellOf, hsoft, Bool.false_eq_true, if_false]
+        exact .rewritten ⟨e.value, e.expiry⟩ v t rm hn
+  | softDelete c e hev h0 h1 =>
+    subst hev
+    have hn : s'.now = s.now := step_now_eq hs (by intro d h; cases h)
+    rw [h0, h1]
+    cases hsoft : e.soft with
+    | true =>
+      simp only [cellOf, hsoft, if_true]
+      exact ⟨.unchanged, .unchanged _ hle, fun _ _ => Or.inr (by simp [cellOf, h0, hsoft])⟩
+    | false =>
+      simp only [cellOf, hsoft, Bool.false_eq_true, if_false, if_true]
+      exact ⟨.hidden, .hidden _ hn, c, rfl⟩
+  | workerDelete hh q hev hw hqq h1 =>
+    subst hev
+    have hn : s'.now = s.now := step_now_eq hs (by intro d h; cases h)
+    exact toNone .deleted h1 ⟨rfl, hw, hh, q, hqq⟩ (fun c _ => .deleted c hn)
+  | evicted id hash w k0 v hh q hev hw hqq hpress h1 =>
+    subst hev
+    have hn : s'.now = s.now := step_now_eq hs (by intro d h; cases h)
+    refine toNone .evicted h1 ⟨rfl, ?_⟩ (fun c _ => .evicted c hn)
+    rcases hqq with hqq | ⟨t, hqq⟩
+    · exact ⟨k0, v, none, w, ⟨hw, id, hash, hh, q, hqq⟩, hpress⟩
+    · exact ⟨k0, v, some t, w, ⟨hw, id, hash, hh, q, hqq⟩, hpress⟩
+  | inserted id hash w v hh q entry hev hw hqq h0 h1 _ _ _ =>
+    subst hev
+    have hn : s'.now = s.now := step_now_eq hs (by intro d h; cases h)
+    have hs' : workerStep s o = .ok (s', out, o') := hs
+    have hk0 : ({ s with queue := q } : State).store.get? k = none := h0
+    rw [h0, h1]
+    have fin : ∀ (ttl : Option Nat) (kind : String) (r : Exec × Oracle),
+        workerPut { s with queue := q } id hash w k v ttl o = .ok r →
+        workerFinish hh kind r = .ok (s', out, o') → HeadPut s k v ttl w →
+        ∃ why, KeyStep s.now s'.now why (cellOf none) (cellOf (some entry)) ∧ Justified s .worker k why := by
+      intro ttl kind r hr hf hhead
+      obtain ⟨ex, o1⟩ := r
+      obtain ⟨g1, _, _⟩ := workerFinish_kill hf
+      have := workerPut_entry hr hk0 (e := entry) (by rw [← g1]; exact h1)
+      subst this
+      exact ⟨.installed v ttl, .installed v ttl hn, rfl, w, hhead⟩
+    rcases hqq with hqq | ⟨t, hqq⟩
+    · rw [workerStep_running s o _ hh q hw hqq] at hs'
+      dsimp only at hs'
+      split at hs'
+      · rename_i r hr
+        exact fin none _ r hr hs' ⟨hw, id, hash, hh, q, hqq⟩
+      · cases hs'
+    · rw [workerStep_running s o _ hh q hw hqq] at hs'
+      dsimp only at hs'
+      split at hs'
+      · rename_i r hr
+        exact fin (some t) _ r hr hs' ⟨hw, id, hash, hh, q, hqq⟩
+      · cases hs'
+  | swept evs hev hsw h1 =>
+    subst hev
+    have hn : s'.now = s.now := step_now_eq hs (by intro d h; cases h)
+    refine toNone .expiredRemoved h1 rfl (fun c hc => ?_)
+    obtain ⟨e, he, _, rfl⟩ := cellOf_eq_some.mp hc
+    obtain ⟨x, hx, hnow, _⟩ := (C10_removed_exactly ht hsw he).1.mp h1
+    exact .expiredRemoved _ hn (by simp [Cell.expired, hx, hnow])
+  | shutdown c hev _ h1 =>
+    subst hev
+    have hn : s'.now = s.now := step_now_eq hs (by intro d h; cases h)
+    rw [h1]
+    exact ⟨.cleared, .cleared _ hn, Or.inl ⟨c, rfl⟩⟩
+  | resumedShutdown c hev hp h1 =>
+    subst hev
+    have hn : s'.now = s.now := step_now_eq hs (by intro d h; cases h)
+    have hsh : s.shutting = true := by
+      rcases hp with hp | hp
+      · exact hq.parkedOk c _ hp
+      · exact hq.parkedOk c _ hp
+    rw [h1]
+    exact ⟨.cleared, .cleared _ hn, Or.inr ⟨c, rfl, hsh, hp⟩⟩
+
+/-- … at every reachable state, with no hypothesis but reachability -/
+theorem refines_reach {cfg : Cfg} {now : Nat} {seeds : List Nat} {s s' : State} {ev : Ev} {o o' : Oracle} {out : Out}
+    (hr : Reach cfg now seeds s) (hs : step s ev o = .ok (s', out, o')) (k : Nat) :
+    ∃ why, KeyStep (abs s).now (abs s').now why ((abs s).cells k) ((abs s').cells k) ∧ Justified s ev k why :=
+  refines (ttlinv_reach hr) (qinv_of_reach hr) hs k
+
+/-- **The clock and the shutdown flag** (for every state, no invariant needed): the clock never runs backwards and
+    moves only by a clock event; the flag is never lowered, is raised by `shutdown()` and by nothing else. -/
+theorem refines_global {s s' : State} {ev : Ev} {o o' : Oracle} {out : Out} (hs : step s ev o = .ok (s', out, o')) :
+    (abs s).now ≤ (abs s').now ∧ ((∀ d, ev ≠ .advance d) → (abs s').now = (abs s).now) ∧
+    ((abs s).shut = true → (abs s').shut = true) ∧ ((∀ c, ev ≠ .shutdown c) → (abs s').shut = (abs s).shut) ∧
+    (∀ c, ev = .shutdown c → (abs s').shut = true) := by
+  refine ⟨step_now_le hs, step_now_eq hs, step_shutting hs, fun hev => ?_, fun c hev => ?_⟩
+  · have e := (step_pres {} hs hev).1
+    simp only [envView, Prod.mk.injEq] at e
+    exact e.2
+  · subst hev
+    simp only [step, Except.ok.injEq, Prod.mk.injEq] at hs
+    obtain ⟨rfl, _, _⟩ := hs
+    exact clientShutdown_flag s c
+
+/-! ### 5. reads -/
+
+theorem abs_of_onlyRead {s s' : State} (h : OnlyRead s s') : abs s' = abs s := by
+  obtain ⟨f1, _, _, _, _, f6, _, _, _, _, _, f12, _⟩ := h.fields
+  simp only [abs, f1, f6, f12]
+
+/-- **Reads return `S.read` of the abstract state and do not change it.**  (`multi_get` after shutdown returns the
+    EMPTY list, not one `none` per key: `S.readMany`.) -/
+theorem reads_agree {s s' : State} {o o' : Oracle} {out : Out} :
+    (∀ k, step s (.get k) o = .ok (s', out, o') → out = .value ((abs s).read k) ∧ abs s' = abs s) ∧
+    (∀ ks, step s (.multiGet ks) o = .ok (s', out, o') → out = .values ((abs s).readMany ks) ∧ abs s' = abs s) := by
+  constructor
+  · intro k hs
+    obtain ⟨h1, h2⟩ := clientGet_spec (s := s) (k := k) (o := o) hs
+    exact ⟨by rw [h2, read_abs], abs_of_onlyRead h1⟩
+  · intro ks hs
+    obtain ⟨h1, h2⟩ := clientMultiGet_spec (s := s) (ks := ks) (o := o) hs
+    refine ⟨?_, abs_of_onlyRead h1⟩
+    rw [h2]
+    show _ = Out.values (if s.shutting then [] else ks.map (abs s).read)
+    cases hsh : s.shutting with
+    | true => rfl
+    | false =>
+      simp only [Bool.false_eq_true, if_false]
+      congr 1
+      apply List.map_congr_left
+      intro a _
+      simp [read_abs, hsh]
+
+/-! ### 6. inversion of `KeyStep`, facts about `read` -/
+
+theorem read_eq_some_iff (sp : S) (k v : Nat) :
+    sp.read k = some v ↔ sp.shut = false ∧ ∃ c, sp.cells k = some c ∧ c.expired sp.now = false ∧ c.value = v := by
+  unfold S.read
+  cases sp.shut with
+  | true => simp
+  | false =>
+    cases sp.cells k with
+    | none => simp
+    | some c => cases hx : c.expired sp.now <;> simp [hx]
+
+/-- a cell not expired now was not expired earlier -/
+theorem expired_mono {c : Cell} {now now' : Nat} (hle : now ≤ now') (h : c.expired now' = false) :
+    c.expired now = false := by
+  unfold Cell.expired at h ⊢
+  cases hd : c.deadline with
+  | none => rfl
+  | some d =>
+    simp only [hd, decide_eq_false_iff_not] at h ⊢
+    omega
+
+/-- a cell that exists after a step: it was there unchanged, was installed, or was rewritten -/
+theorem KeyStep.to_some {now now' : Nat} {why : Why} {c : Option Cell} {x : Cell}
+    (h : KeyStep now now' why c (some x)) :
+    (why = .unchanged ∧ c = some x ∧ now ≤ now') ∨
+    (∃ v ttl, why = .installed v ttl ∧ c = none ∧ x = ⟨v, ttl.map (now + ·)⟩ ∧ now' = now) ∨
+    (∃ c0 v ttl rm, why = .rewritten v ttl rm ∧ c = some c0 ∧
+      x = ⟨v.getD c0.value, newDeadline now c0.deadline ttl rm⟩ ∧ now' = now) := by
+  cases h with
+  | unchanged _ hle => exact Or.inl ⟨rfl, rfl, hle⟩
+  | installed v ttl hn => exact Or.inr (Or.inl ⟨v, ttl, rfl, rfl, rfl, hn⟩)
+  | rewritten c0 v ttl rm hn => exact Or.inr (Or.inr ⟨c0, v, ttl, rm, rfl, rfl, rfl, hn⟩)
+
+/-- a cell that is lost in a step: the clock stood still and the cause is one of the five removals -/
+theorem KeyStep.to_none {now now' : Nat} {why : Why} {x : Cell} (h : KeyStep now now' why (some x) none) :
+    now' = now ∧ (why = .hidden ∨ why = .deleted ∨ (why = .expiredRemoved ∧ x.expired now = true) ∨
+      why = .evicted ∨ why = .cleared) := by
+  cases h with
+  | hidden _ hn => exact ⟨hn, Or.inl rfl⟩
+  | deleted _ hn => exact ⟨hn, Or.inr (Or.inl rfl)⟩
+  | expiredRemoved _ hn hx => exact ⟨hn, Or.inr (Or.inr (Or.inl ⟨rfl, hx⟩))⟩
+  | evicted _ hn => exact ⟨hn, Or.inr (Or.inr (Or.inr (Or.inl rfl)))⟩
+  | cleared _ hn => exact ⟨hn, Or.inr (Or.inr (Or.inr (Or.inr rfl)))⟩
 
 end Cached.Spec
